@@ -4,7 +4,7 @@
    rule asks for, using the UAPI numbers by name — never the model. *)
 From Coq Require Import List Ascii String Arith NArith ZArith Bool Lia.
 Import ListNotations.
-Require Import Bytes Mach RuleTables RuleDecode Mask RuleEncode RuleText RuleValue Uapi UapiRule.
+Require Import Bytes Mach RuleTables RuleDecode Mask RuleEncode RuleText RuleValue Flags RuleBuild Uapi UapiRule.
 Local Open Scope string_scope.
 Local Open Scope list_scope.
 Open Scope N_scope.
@@ -106,7 +106,8 @@ Definition watch_shaped_dir (s : rspec) : bool :=
 Inductive bcase :=
 | BRule (s : rspec) (built : option str) (r : rt)
 | BWatch (path : str) (is_dir : bool) (perms : str) (keys : list str) (built : option str) (r : rt)
-| BVal (field : string) (text : str) (obs : option N).     (* one "-F field=text" filter: the value word Build wrote, None = rejected *)
+| BVal (field : string) (text : str) (obs : option N)
+| BLine (toks : list str) (built : option str).          (* the tokens shellquote.Split gave for a syscall-rule line, and what Parse + Build made of them *)     (* one "-F field=text" filter: the value word Build wrote, None = rejected *)
 
 Definition judge_value (f : string) (text : str) (obs : option N) : N :=
   match lookupS (s2l f) fields_table with
@@ -134,6 +135,8 @@ Definition judge_c06 (c : bcase) : N :=
       | None => if optb_eqb (build_watch path is_dir perms keys) None then 0 else 1
       end
   | BVal f text obs => judge_value f text obs
+  | BLine toks built =>
+      if optb_eqb (option_map to_wire (match flags_parse toks with Some p => build_prule (fun _ => false) p | None => None end)) built then 0 else 1
   end.
 (* the model side of the tie: decode -> re-encode gives the bytes back, and the model of ToCommandLine prints the text the implementation printed *)
 Definition text_agrees (b : str) (r : rt) : bool :=
@@ -144,12 +147,18 @@ Definition covers_all_but_last (b : str) : bool :=
   | Some u => forallb (N.eqb 4294967295) (firstn 63 (ur_mask u)) && negb (nth 63 (ur_mask u) 0 =? 65535)
   | None => false
   end.
+(* the model's own way back: its text, split at blanks, parsed and built by the model, must be the bytes again *)
+Definition rebuild_agrees (stat : bool) (b : str) : bool :=
+  match text_of_wire b with
+  | Some t => optb_eqb (option_map to_wire (rebuild (fun _ => stat) t)) (Some b)
+  | None => false
+  end.
 Definition judge_c07 (c : bcase) : N :=
   match c with
   | BRule s (Some b) r =>
       if watch_shaped_dir s then (if text_agrees b r then 0 else 1)
-      else if negb (chk_C07 r) then (if covers_all_but_last b then 103 else 2) else if optb_eqb (reencode b) (Some b) && text_agrees b r then 0 else 1
-  | BWatch _ _ _ _ (Some b) r => if negb (chk_C07 r) then 2 else if optb_eqb (reencode b) (Some b) && text_agrees b r then 0 else 1
+      else if negb (chk_C07 r) then (if covers_all_but_last b then 103 else 2) else if optb_eqb (reencode b) (Some b) && text_agrees b r && rebuild_agrees false b then 0 else 1
+  | BWatch _ is_dir _ _ (Some b) r => if negb (chk_C07 r) then 2 else if optb_eqb (reencode b) (Some b) && text_agrees b r && rebuild_agrees is_dir b then 0 else 1
   | _ => 0
   end.
 
